@@ -258,12 +258,13 @@ def r5(R, repo):
   if 'bool' in handled:
     node = chain[handled['bool']]
     inner = [s for s in node.body if isinstance(s, ast.If)]
+    _rets = lambda blk: [astu.src(s_) for s_ in blk if isinstance(s_, ast.Return)]
     ok = len(inner) == 1 and astu.src(inner[0].test) == filter_param and \
-        astu.src(inner[0].body[0]) == 'return Everything()' and astu.src(inner[0].orelse[0]) == 'return Nothing()'
-    R.judge(len(inner) == 1 and astu.src(inner[0].test) == filter_param and len(inner[0].body) == 1 and len(inner[0].orelse) == 1 and isinstance(inner[0].body[0], ast.Return), ok, key_of(f, 'bool -> Everything/Nothing'), (f, node), 'True must become Everything() and False Nothing()')
+        _rets(inner[0].body) == ['return Everything()'] and _rets(inner[0].orelse) == ['return Nothing()']
+    R.judge(len(inner) == 1 and astu.src(inner[0].test) == filter_param and len(_rets(inner[0].body)) == 1 and len(_rets(inner[0].orelse)) == 1, ok, key_of(f, 'bool -> Everything/Nothing'), (f, node), 'True must become Everything() and False Nothing()')
   if 'Predicate' in handled:
     node = chain[handled['Predicate']]
-    R.check(astu.src(node.body[0]) == 'return %s' % filter_param, key_of(f, 'callable passes through'), (f, node),
+    R.check([astu.src(s_) for s_ in node.body if isinstance(s_, ast.Return)] == ['return %s' % filter_param], key_of(f, 'callable passes through'), (f, node),
             'a predicate must be returned unchanged')
 
 
